@@ -11,7 +11,8 @@ Local Open Scope Z_scope.
 
 Inductive exn :=
 | KeyError | IndexError | AssertionError | TypeError | ValueError
-| JellyConformanceError | JellyAssertionError | JellyNotImplementedError.
+| JellyConformanceError | JellyAssertionError | JellyNotImplementedError
+| StopIteration | NotImplementedError.
 
 (* the outcome of a call: a value or a raised exception; the object's state is returned beside it
    in both cases (what a method changed before it raised stays changed) *)
@@ -24,7 +25,8 @@ Definition is_exn (e e' : exn) : bool :=
   | KeyError, KeyError | IndexError, IndexError | AssertionError, AssertionError
   | TypeError, TypeError | ValueError, ValueError
   | JellyConformanceError, JellyConformanceError | JellyAssertionError, JellyAssertionError
-  | JellyNotImplementedError, JellyNotImplementedError => true
+  | JellyNotImplementedError, JellyNotImplementedError
+  | StopIteration, StopIteration | NotImplementedError, NotImplementedError => true
   | _, _ => false
   end.
 
